@@ -388,6 +388,9 @@ impl Sched {
             *p.cell.0.lock().unwrap() = true;
             p.cell.1.notify_all();
         };
+        // The command may have returned while other threads of it are still running (error paths):
+        // let them come to rest at their gates first, so that the moment of deactivation is not a race.
+        drain_threads();
         self.release_all_and_deactivate();
         let result = match stop {
             Stop::Done => {
@@ -408,6 +411,11 @@ impl Sched {
                 }
             }
         };
+        // threads of the library may outlive the call (e.g. after an error): let them come to rest
+        // before anybody looks at the store or its log
+        drain_threads();
+        drain_rayon();
+        drain_threads();
         Outcome {
             result,
             stop,
@@ -664,6 +672,30 @@ impl Quiesce {
     }
 }
 
+/// Make every rayon pool worker finish what it is doing: tasks of a command that was aborted by an
+/// injected fault may still occupy workers and would otherwise overlap with the next command.
+pub fn drain_rayon() {
+    let (tx, rx) = std::sync::mpsc::channel();
+    let _ = std::thread::Builder::new().name("drain".into()).spawn(move || {
+        let _ = rayon::broadcast(|_| ());
+        let _ = tx.send(());
+    });
+    let t0 = Instant::now();
+    while t0.elapsed() < Duration::from_millis(800) {
+        if rx.try_recv().is_ok() {
+            return;
+        }
+        std::thread::sleep(Duration::from_micros(200));
+    }
+}
+
+/// wait (bounded) until every other thread of the process is asleep
+pub fn drain_threads() {
+    let self_tid = unsafe { libc::syscall(libc::SYS_gettid) } as i32;
+    let never = AtomicBool::new(false);
+    let _ = Quiesce::new(self_tid).wait(&never, Duration::from_millis(1500));
+}
+
 fn spin(us: u64) {
     let t = Instant::now();
     while (t.elapsed().as_micros() as u64) < us {
@@ -708,6 +740,9 @@ impl Sched {
                 }
             }
         };
+        drain_threads();
+        drain_rayon();
+        drain_threads();
         Outcome { result, stop, trace: vec![], samples: 0, sim_ns: interpose::clock_now() - start_ns, policy: "free" }
     }
 }
